@@ -2,7 +2,7 @@ SPECIFICATION Spec
 CONSTANTS
   N = 3
   K = 2
-  MaxLen = 3
+  MaxLen = 2
   W = 2
   MaxLearn = 2
   MaxRestart = 1
